@@ -5,6 +5,8 @@ EXTENDS Samplers, TLC, TLCExt, Json, IOUtils
 Traces == JsonDeserialize(IOEnv.TRACE_FILE)
 VARIABLES tid, verdict, dev
 S(t) == t.scenario.smp
+RECURSIVE HasNarrow(_)
+HasNarrow(s) == CASE s.k = "leaf" -> s.kind = "narrow" [] s.k = "static" -> HasNarrow(s.a) [] OTHER -> HasNarrow(s.a) \/ HasNarrow(s.b)
 RECURSIVE IsStatic(_)
 IsStatic(s) == s.k = "static"
 \* acknowledged deviations, identified by the construct that fails
@@ -17,7 +19,9 @@ Check(t) ==
     IF "driver_error" \in DOMAIN t THEN "driver-error"
     ELSE IF t.build_exc # "" THEN "construction-failed:" \o t.build_exc
     ELSE LET s == S(t)  P == t.P IN
-    IF \E i \in DOMAIN t.calls : t.calls[i].exc # "" THEN "sampling-failed:" \o (t.calls[CHOOSE i \in DOMAIN t.calls : t.calls[i].exc # ""].exc)
+    \* (a 2 % filter: the sampler's documented safeguard may give up when 20 rounds contain no valid candidate; such a run is not judged)
+    IF HasNarrow(s) /\ ((\E i \in DOMAIN t.calls : t.calls[i].exc = "FilterGaveUp") \/ (t.has_free /\ t.free.exc = "FilterGaveUp")) THEN "ok"
+    ELSE IF \E i \in DOMAIN t.calls : t.calls[i].exc # "" THEN "sampling-failed:" \o (t.calls[CHOOSE i \in DOMAIN t.calls : t.calls[i].exc # ""].exc)
     \* the second call has other parameter values (a static sampler keeps serving the first table)
     ELSE LET c1 == Clause(s, t.calls[1].rows, P)  c2 == Clause(s, t.calls[2].rows, IF IsStatic(s) THEN P ELSE t.P2) IN
     IF c1 # "ok" THEN c1
@@ -27,6 +31,9 @@ Check(t) ==
     ELSE IF t.has_free /\ Clause(s, t.free.rows, <<>>) # "ok" THEN "parameter-free:" \o Clause(s, t.free.rows, <<>>)
     ELSE IF t.len_before # -1 /\ t.len_before # LenSpec(s) THEN "len-before-first-call"
     ELSE IF t.has_free /\ t.len_after # Len(t.free.rows) THEN "len-after-parameter-free-call"
+    \* the same object after calls with k parameter rows: a parameter-free call, then len() = the rows of THAT call
+    \* (a static sampler keeps serving the table of its first call, whatever the parameters: not judged)
+    ELSE IF "hist_rows" \in DOMAIN t /\ t.hist_rows >= 0 /\ ~IsStatic(s) /\ t.hist_len # t.hist_rows THEN "len-after-a-history-of-calls"
     ELSE "ok"
 Init == tid \in 1..Len(Traces) /\ verdict = Check(Traces[tid]) /\ dev = DevOf(Traces[tid], verdict)
 Next == FALSE /\ UNCHANGED <<tid, verdict, dev>>
